@@ -3,7 +3,7 @@
    input) this gives "output / heap linear in the decoded document" at model level for WBXML -> XML. *)
 From Coq Require Import List NArith Bool.
 From Wbxml Require Import Model.TablesDefs Model.Codec Model.EncXml Model.XmlRead Gen.TablesData
-     Proofs.EncXmlProofs Proofs.EncXmlIndent Proofs.EncXmlSize Proofs.EncXmlTables.
+     Proofs.EncXmlProofs Proofs.EncXmlIndent Proofs.EncXmlSize Proofs.EncXmlTotal Proofs.EncXmlTables.
 Import ListNotations.
 
 (* SIZE (full: every language entry, generation mode, indent width, white-space setting and every kind of node,
@@ -49,3 +49,12 @@ Theorem C01x_xml_total : forall l g w keep_ws roots,
   (exists e, enc_xml l g w keep_ws roots = XErr e) <-> fst (sfl None false roots) = true.
 Proof. exact enc_xml_fails_iff. Qed.
 Print Assumptions C01x_xml_total.
+
+(* WHICH CODE (full).  Every refusal of the generator carries the code of its cause, for every language, mode, width and
+   white-space setting: NOT_IMPLEMENTED only when the tree holds a processing-instruction node, BAD_PARAMETER only
+   when it holds an embedded tree without language, B64_ENC only when it holds an empty text node ([cause e] is a
+   predicate on the tree alone).  Together with C01x_xml_total (when it fails) this says what the caller is told. *)
+Theorem C01x_xml_error_code_has_cause : forall l g w keep_ws roots e,
+  enc_xml l g w keep_ws roots = XErr e -> existsb (cause e) roots = true.
+Proof. exact enc_xml_error_cause. Qed.
+Print Assumptions C01x_xml_error_code_has_cause.
